@@ -116,3 +116,39 @@ def pkg_call_hook(prog: Program, mod, self_cls=None, self_name: str = "self"):
             args.append(_sp.Function("kw_" + k)(T.tr(bound[k])))
         return _sp.Function(f.name)(*args)
     return hook
+
+
+def family(prog, f):
+    """``f`` together with the *new* helpers (not part of the pinned vocabulary, and not already analysed at
+    their call sites by the normaliser) that it calls, transitively.  A sweep that asks "does this routine
+    contain X" has to look there too: a refactoring may have moved X into such a helper."""
+    import ast as _ast
+    from ..normalize import load_baseline
+    base = load_baseline()
+    absorbed = getattr(prog, "absorbed", set())
+    out, work = [f], [f]
+    while work:
+        g = work.pop()
+        for c in _ast.walk(g.node):
+            if not isinstance(c, _ast.Call):
+                continue
+            h = None
+            if isinstance(c.func, _ast.Name):
+                r = prog.resolve_name(g.module, c.func.id)
+                if r and r[0] == "func":
+                    h = r[1]
+                elif g.qualname:
+                    h = prog.funcs.get(f"{g.qualname}.<locals>.{c.func.id}")
+            elif isinstance(c.func, _ast.Attribute) and isinstance(c.func.value, _ast.Name) and c.func.value.id in ("self", "cls") and getattr(g, "cls", None) is not None:
+                h = g.cls.find_method(c.func.attr)
+            if h is None or h.qualname in base or h.qualname in absorbed or any(h is x for x in out):
+                continue
+            out.append(h)
+            work.append(h)
+    return out
+
+
+def family_nodes(prog, f):
+    from ..astutil import own_nodes
+    for g in family(prog, f):
+        yield from own_nodes(g.node)
